@@ -389,8 +389,35 @@ def switch_edges(fn, bb):
         ty = discr_type_of_switch(fn, bb)
         if ty is not None and TWO_VARIANT.get(ty) == 2:
             other = 1 - arms[0][0]
-    out.append((other, t.j["otherwise"]))
+    if not t.j.get("otherwise_dead"):
+        out.append((other, t.j["otherwise"]))
     return out
+
+
+def dead_otherwise_edges(fn):
+    """(block, target) of `otherwise` edges that can never be taken: the switch is on the discriminant of an enum all of
+    whose variants have an arm of their own (rustc points such an edge at the wildcard arm of a `matches!`, which would
+    otherwise look reachable two ways)"""
+    c = getattr(fn, "_dead_otherwise", None)
+    if c is not None:
+        return c
+    dead = set()
+    for b in fn.reachable():
+        t = fn.blocks[b].term
+        if t.k != "switch":
+            continue
+        arms = t.j.get("arms", [])
+        vals = [v for v, _ in arms]
+        try:
+            n = _variant_count(fn, b)
+        except Exception:
+            n = None
+        if n is not None and len(set(vals)) == n and all(isinstance(v, int) and 0 <= v < n for v in vals) and t.j.get("otherwise") not in [tg for _, tg in arms]:
+            dead.add((b, t.j["otherwise"]))
+        elif n is not None and len(set(vals)) == n and all(isinstance(v, int) and 0 <= v < n for v in vals):
+            dead.add((b, None))          # the target is shared with an arm: the edge itself is dead, the block is not
+    fn._dead_otherwise = dead
+    return dead
 
 
 def _reach_without_edge(fn, src, dst_set_removed):
@@ -402,6 +429,7 @@ def _reach_without_edge(fn, src, dst_set_removed):
         for s in fn.succs(b):
             if b == src and s in dst_set_removed:
                 continue
+
             if s not in seen:
                 seen.add(s)
                 st.append(s)
@@ -460,6 +488,10 @@ def dominating_guards(fn, site_bb, _depth=0):
                 if len(ds_) == 1 and ds_[0][1] == "assign" and ds_[0][2].rv is not None and ds_[0][2].rv.k == "use" and ds_[0][2].rv.ops and ds_[0][2].rv.ops[0].place is not None and ds_[0][2].rv.ops[0].place.is_local() \
                         and fn.dominates(ds_[0][0], d) and root_l not in mut_borrowed(fn):
                     root_l = ds_[0][2].rv.ops[0].place.local
+                elif len(ds_) == 1 and ds_[0][1] == "assign" and ds_[0][2].rv is not None and ds_[0][2].rv.k == "un" and ds_[0][2].rv.j.get("op") == "Not" and ds_[0][2].rv.ops and ds_[0][2].rv.ops[0].place is not None \
+                        and ds_[0][2].rv.ops[0].place.is_local() and fn.dominates(ds_[0][0], d) and root_l not in mut_borrowed(fn):
+                    root_l = ds_[0][2].rv.ops[0].place.local          # `let ok = !matches!(..)`: the negation of the tested temporary
+                    bval = not bval
                 else:
                     break
             cs = const_assigns_to(fn, root_l)
